@@ -438,4 +438,178 @@ theorem C13_history_threshold (dir : String) (cfg : Cfg) (hcfg : cfg.Valid) (h :
   obtain ⟨h1, db', h2, h3, _, h5, h6, _⟩ := (C13.C13_threshold hs hd hc ht).1 k v hk
   exact ⟨h1, db', h2, h3, h5, h6⟩
 
+/-! ## static hypotheses -/
+
+/-- `RunOK` from the static bounds of `C01_refines_history_small` (records ≤ 2^27 bytes, fewer than
+    2^31 − 1 calls, estimated bytes written below 4 GiB): with it every theorem of this file holds
+    under conditions on the history alone -/
+theorem runOK_of_small (dir : String) (cfg : Cfg) (hcfg : cfg.Valid) (h : List HOp)
+    (hok : ∀ op ∈ h, HOpOK dir op ∧ HOpSmall op) (hwf : WF false h = true)
+    (hlen : 2 * h.length + 1 < 2 ^ 32) (hcost : totalCost h < 2 ^ 32) :
+    RunOK dir (openDB St.init dir cfg).1 h :=
+  (C01_refines_history_small dir cfg hcfg h hok hwf hlen hcost).1
+
+/-- `C17_history_limit`, all hypotheses static -/
+theorem C17_history_limit_small (dir : String) (cfg : Cfg) (hcfg : cfg.Valid) (h : List HOp)
+    (hok : ∀ op ∈ h, HOpOK dir op ∧ HOpSmall op) (hwf : WF false h = true)
+    (hlen : 2 * h.length + 1 < 2 ^ 32) (hcost : totalCost h < 2 ^ 32) (n : Nat) :
+    SizeOK (limitAt cfg h n) (stateAt dir cfg h n) ∧
+    (∀ md, (stateAt dir cfg h n).world.get (mergeDirName dir) = some md →
+      ∀ x ∈ md.data, FileWithin (limitAt cfg h n) x.2) :=
+  have := C17_history_limit dir cfg hcfg h hok hwf (runOK_of_small dir cfg hcfg h hok hwf hlen hcost) n
+  ⟨this.1, this.2.2⟩
+
+/-- `C17_history_counters` (a) and `C13_history` (first part), all hypotheses static -/
+theorem C17_C13_history_small (dir : String) (cfg : Cfg) (hcfg : cfg.Valid) (h : List HOp)
+    (hok : ∀ op ∈ h, HOpOK dir op ∧ HOpSmall op) (hwf : WF false h = true)
+    (hlen : 2 * h.length + 1 < 2 ^ 32) (hcost : totalCost h < 2 ^ 32) (n : Nat) :
+    (isLive (specAt h n).slot = false → ∃ db g d, StatAt dir (stateAt dir cfg h n) (specAt h n).m db g d) ∧
+    ∃ db, (stateAt dir cfg h n).db = some db ∧ DInv (stateAt dir cfg h n) db := by
+  have hro := runOK_of_small dir cfg hcfg h hok hwf hlen hcost
+  have hok' : ∀ op ∈ h, HOpOK dir op := fun op hop => (hok op hop).1
+  refine ⟨(C17_history_counters dir cfg hcfg h hok' hwf hro).1 n, ?_⟩
+  obtain ⟨db, h1, h2, _⟩ := (C13_history dir cfg hcfg h hok' hwf hro).1 n
+  exact ⟨db, h1, h2⟩
+
+/-! ## 5. non-vacuity: the demo history `demoH` of `Properties/C01History.lean`
+
+41 calls: plain writes · a `Sync` batch with intermediate flushes · `Merge` [position 13] · `Backup` ·
+a batch AFTER the merge · plain writes · the ADOPTING restart under `cfg1` [26] · reads · a second
+restart under `cfg2` [34] · a `Merge` of the adopted directory [38] · a third (again adopting) restart
+under `cfg0` [39] · a read.  All side conditions are PROVED (`demo_ok`, `demo_wf`, `demo_refines`). -/
+
+theorem demo_runOK : RunOK "d" (openDB St.init "d" cfg0).1 demoH := demo_refines.1
+
+theorem demo_counters :
+    (∀ n, isLive (specAt demoH n).slot = false →
+      ∃ db g d, StatAt "d" (stateAt "d" cfg0 demoH n) (specAt demoH n).m db g d) ∧
+    (∀ n (hn : n < demoH.length) cfg', demoH[n] = .restart cfg' →
+      RestartCounters "d" (stateAt "d" cfg0 demoH n) (stateAt "d" cfg0 demoH (n + 1))) :=
+  C17_history_counters "d" cfg0 (by decide) demoH (fun op h => (demo_ok op h).1) demo_wf demo_runOK
+
+/-- `Stat` is exact right after the first `Merge`, after the batch that follows it, after the adopting
+    restart, after the second restart, at the end -/
+example : ∀ n ∈ [14, 24, 27, 35, 41],
+    ∃ db g d, StatAt "d" (stateAt "d" cfg0 demoH n) (specAt demoH n).m db g d := by
+  intro n hn
+  simp only [List.mem_cons, List.not_mem_nil, or_false] at hn
+  rcases hn with rfl | rfl | rfl | rfl | rfl <;> exact demo_counters.1 _ (by decide)
+
+/-- the three restarts of `demoH` -/
+example : RestartCounters "d" (stateAt "d" cfg0 demoH 26) (stateAt "d" cfg0 demoH 27) ∧
+    RestartCounters "d" (stateAt "d" cfg0 demoH 34) (stateAt "d" cfg0 demoH 35) ∧
+    RestartCounters "d" (stateAt "d" cfg0 demoH 39) (stateAt "d" cfg0 demoH 40) :=
+  ⟨demo_counters.2 26 (by decide) cfg1 rfl, demo_counters.2 34 (by decide) cfg2 rfl,
+   demo_counters.2 39 (by decide) cfg0 rfl⟩
+
+/-- `C17_history_merge_admitted` after the adopting restart (where `Reclaimable` over-reports) -/
+theorem demo_merge_admitted : ∃ db, (stateAt "d" cfg0 demoH 27).db = some db ∧
+    (db.total < 2 ^ 63 → (mergeNeed db.total db.reclaim).toNat = liveBytes db.index) := by
+  obtain ⟨db, h1, _, h3⟩ := C17_history_merge_admitted "d" cfg0 (by decide) demoH (fun op h => (demo_ok op h).1)
+    demo_wf demo_runOK 27 (by decide)
+  exact ⟨db, h1, fun hlt => (h3 hlt).2.1⟩
+
+theorem demo_limit (n : Nat) : SizeOK (limitAt cfg0 demoH n) (stateAt "d" cfg0 demoH n) :=
+  (C17_history_limit "d" cfg0 (by decide) demoH demo_ok demo_wf demo_runOK n).1
+
+theorem demo_durable (n : Nat) : ∃ db, (stateAt "d" cfg0 demoH n).db = some db ∧ DInv (stateAt "d" cfg0 demoH n) db := by
+  obtain ⟨db, h1, h2, _⟩ := (C13_history "d" cfg0 (by decide) demoH (fun op h => (demo_ok op h).1) demo_wf demo_runOK).1 n
+  exact ⟨db, h1, h2⟩
+
+/-! ### evaluated (compiled evaluation by `#guard`; not used by any proof) -/
+
+private def demoKeys : List ByteArray := ["a", "b", "c", "d", "e", "f", "g", "h", "z"].map kb
+
+/-- (KeyNum, DataFileNum, Reclaimable, DiskSize, liveBytes) at point `n` -/
+private def statRow (n : Nat) : Option (Nat × Nat × Nat × Nat × Nat) :=
+  let s := stateAt "d" cfg0 demoH n
+  match s.db with
+  | some db => let st := stat s db; some (st.keys, st.files, st.reclaim, st.disk, liveBytes db.index)
+  | none => none
+
+private def quietPoints : List Nat := (List.range 42).filter (fun n => !isLive (specAt demoH n).slot)
+
+-- the live batches occupy the points 4 … 10 and 17 … 22
+#guard quietPoints = [0, 1, 2, 3, 11, 12, 13, 14, 15, 16, 23, 24, 25, 26, 27, 28, 29, 30, 31, 32, 33, 34, 35, 36, 37,
+  38, 39, 40, 41]
+-- at every quiet point: KeyNum = number of keys the SPECIFICATION's map defines, DataFileNum = number of files
+-- of the directory, Reclaimable ≤ DiskSize, DiskSize − Reclaimable = liveBytes
+#guard quietPoints.all fun n =>
+  match statRow n with
+  | some (keys, files, reclaim, disk, live) =>
+    keys == (demoKeys.filter (fun k => ((specAt demoH n).m k).isSome)).length &&
+    some files == ((stateAt "d" cfg0 demoH n).world.get "d").map (·.data.length) &&
+    reclaim ≤ disk && disk - reclaim == live
+  | none => false
+-- the numbers: before / after the first `Merge` (one more, empty, file), before / after the ADOPTING restart
+-- (9 files become 5; liveBytes stays 65; both counters are the replay's 141 / 76 PLUS S = 52 = the four
+-- records of merged file 0, which the hint path scans again), after the second restart (exact: 141 / 76),
+-- after the second merge, after the third restart (adopting again: S = 65, the whole merged file)
+#guard [13, 14, 26, 27, 34, 35, 39, 40].map statRow =
+  [some (4, 5, 51, 103, 52), some (4, 6, 51, 103, 52), some (5, 9, 127, 192, 65), some (5, 5, 128, 193, 65),
+   some (5, 5, 128, 193, 65), some (5, 5, 76, 141, 65), some (5, 6, 76, 141, 65), some (5, 2, 65, 130, 65)]
+-- `mergeCheck`'s quantity after the adopting restart: 193 − 128 = 65 = liveBytes, no wrap; a wrapped example
+#guard (mergeNeed 193 128).toNat = 65 && mergeRefusedNoSpace 193 128 66 == false && mergeRefusedNoSpace 193 128 65
+#guard (mergeNeed 128 193).toNat = 2 ^ 64 - 65      -- what drifted counters (reclaim > total) WOULD give
+-- the limit: 120 until the second restart raises `DataFileSize` to 4096 (`cfg1` lowers it to 64: the limit stays)
+#guard [0, 26, 27, 34, 35, 41].map (limitAt cfg0 demoH) = [120, 120, 120, 120, 4096, 4096]
+-- every data file and every file of the merge directory is within the limit at every point
+#guard (List.range 42).all fun n =>
+  let s := stateAt "d" cfg0 demoH n
+  ((s.world.get "d").map (·.data.all (fun x => x.2.bytes.size ≤ limitAt cfg0 demoH n))).getD false &&
+  ((s.world.get "d-merge").map (·.data.all (fun x => x.2.bytes.size ≤ limitAt cfg0 demoH n))).getD true
+-- durability: at every point every file but the last is completely flushed; a merge directory with a marker holds
+-- flushed files only; right after each restart everything is flushed
+#guard (List.range 42).all fun n =>
+  let s := stateAt "d" cfg0 demoH n
+  ((s.world.get "d").map (fun d => d.data.dropLast.all (fun x => x.2.synced == x.2.bytes.size))).getD false &&
+  ((s.world.get "d-merge").map (fun d => d.marker.isNone || d.data.all (fun x => x.2.synced == x.2.bytes.size))).getD true
+#guard [27, 35, 40].all fun n =>
+  (((stateAt "d" cfg0 demoH n).world.get "d").map (fun d => d.data.all (fun x => x.2.synced == x.2.bytes.size))).getD false
+-- the marker follows the history: none before the first merge, present from 14 to 26, gone after the adopting
+-- restart, present after the second merge (39), gone after the third restart
+#guard [13, 14, 26, 27, 38, 39, 40].map (fun n =>
+  (((stateAt "d" cfg0 demoH n).world.get "d-merge").map (·.marker.isSome)).getD false)
+  = [false, true, true, false, false, true, false]
+
+/-! ### a second history: records that alone exceed the limit, through `Merge` and adoption
+
+`DataFileSize = 60`; two 100-byte values (each alone exceeds the limit), one of them overwritten, a
+batch with one oversized record, `Merge`, the adopting restart under a SMALLER `DataFileSize`. -/
+
+private def fill (n : Nat) (b : UInt8) : ByteArray := ⟨Array.replicate n b⟩
+private def cfgT : Cfg := { fileSize := 60, sync := 1, bps := 0, idx := 0, io := 0, shards := 1 }
+private def cfgU : Cfg := { fileSize := 50, sync := 2, bps := 30, idx := 0, io := 0, shards := 1 }
+def bigH : List HOp :=
+  [.a (.put (kb "a") (fill 100 1)), .a (.put (kb "b") (kb "2")), .a (.put (kb "a") (fill 100 3)),
+   .a (.bnew false 7), .a (.bput (kb "c") (fill 100 4)), .a (.bput (kb "d") (kb "5")), .a .bcommit, .a .bdrop,
+   .merge [0, 1, 2, 3, 4], .a (.put (kb "e") (kb "6")), .restart cfgU, .a (.put (kb "f") (kb "7"))]
+
+theorem big_ok : ∀ op ∈ bigH, HOpOK "d" op ∧ HOpSmall op := by decide
+theorem big_wf : WF false bigH = true := by decide
+theorem big_runOK : RunOK "d" (openDB St.init "d" cfgT).1 bigH :=
+  runOK_of_small "d" cfgT (by decide) bigH big_ok big_wf (by decide) (by decide)
+
+theorem big_limit (n : Nat) : SizeOK (limitAt cfgT bigH n) (stateAt "d" cfgT bigH n) ∧
+    (∀ md, (stateAt "d" cfgT bigH n).world.get (mergeDirName "d") = some md →
+      ∀ x ∈ md.data, FileWithin (limitAt cfgT bigH n) x.2) :=
+  have := C17_history_limit "d" cfgT (by decide) bigH big_ok big_wf big_runOK n
+  ⟨this.1, this.2.2⟩
+
+private def fileStats (s : St) (dir : String) : Option (List (Nat × Nat × Nat)) :=
+  (s.world.get dir).map (fun d => d.data.map (fun x => (x.1, x.2.bytes.size, (scan C false x.1 x.2.bytes).recs.length)))
+
+-- (id, bytes, records): the merge succeeded; its output holds the live records: `b`, then `a` (113 bytes, alone in
+-- file 1), `c` (alone in file 2), `d`
+#guard (match (hstep "d" (stateAt "d" cfgT bigH 8) (.merge [0, 1, 2, 3, 4])).2 with | [.ok] => true | _ => false)
+#guard fileStats (stateAt "d" cfgT bigH 9) "d-merge" = some [(0, 13, 1), (1, 113, 1), (2, 113, 1), (3, 13, 1)]
+-- after the adopting restart the adopted files are data files; the oversized ones hold one record each
+#guard fileStats (stateAt "d" cfgT bigH 11) "d" = some [(0, 13, 1), (1, 113, 1), (2, 113, 1), (3, 13, 1), (6, 13, 1)]
+#guard (List.range 13).all fun n =>
+  ((fileStats (stateAt "d" cfgT bigH n) "d").map (·.all (fun x => x.2.1 ≤ limitAt cfgT bigH n || x.2.2 ≤ 2))).getD false &&
+  ((fileStats (stateAt "d" cfgT bigH n) "d-merge").map (·.all (fun x => x.2.1 ≤ limitAt cfgT bigH n || x.2.2 ≤ 2))).getD true
+-- before the merge: the oversized records sit alone in files 1, 3, 4 (the batch's one was flushed when the next record
+-- was staged); the batch's last record shares file 5 with the sealing record
+#guard fileStats (stateAt "d" cfgT bigH 8) "d" = some [(0, 0, 0), (1, 113, 1), (2, 13, 1), (3, 113, 1), (4, 113, 1), (5, 25, 2)]
+
 end XixiKV.C17H
